@@ -4090,8 +4090,7 @@ fn member_access_expr<'db>(
                     vec![NamedArg::new(derefed_expr, *mutability)],
                     stable_ptr,
                     stable_ptr,
-                )
-                .unwrap();
+                )?;
 
                 derefed_expr =
                     ExprAndId { expr: cur_expr.clone(), id: ctx.arenas.exprs.alloc(cur_expr) };
